@@ -97,7 +97,7 @@ def writer_transform(ctx, fn, expr):
     elem = None
     if isinstance(e, ast.Call) and isinstance(e.func, ast.Attribute):
         if e.func.attr == 'tolist':
-            inner = e.func.value
+            inner = _inline(fn, e.func.value)
             if isinstance(inner, ast.Call) and isinstance(inner.func, ast.Attribute) and inner.func.attr in ('to_numpy',):
                 tag = 'frame-tolist'
             elif isinstance(inner, ast.Attribute) and inner.attr == 'values':
